@@ -91,6 +91,24 @@ func (p *Prog) OwningCall(f *Fn, call *ast.CallExpr) bool {
 					return true
 				}
 			}
+			// a local that is only ever defined as a fresh literal (ret := &T{…}; …; return ret)
+			if id, ok := r.(*ast.Ident); ok {
+				if o := ObjOf(g.Pkg, id); o != nil {
+					defs := DefsOf(g, o)
+					all := len(defs) > 0
+					for _, d := range defs {
+						u, isU := Unparen(d).(*ast.UnaryExpr)
+						if !isU || u.Op != token.AND {
+							all = false
+						} else if _, isLit := u.X.(*ast.CompositeLit); !isLit {
+							all = false
+						}
+					}
+					if all {
+						return true
+					}
+				}
+			}
 			fresh = false
 			return true
 		})
